@@ -17,6 +17,9 @@ func monitorsExtra(m *mon) {
 	for _, n := range m.e.notes {
 		if strings.HasPrefix(n, "SATURATION:") {
 			m.add("C03", "not-saturated", "%s", n)
+			if strings.Contains(n, "after TunePool") {
+				m.add("C18", "tunepool-not-effective", "%s", n)
+			}
 		}
 		if strings.HasPrefix(n, "LIFECYCLE:") {
 			m.add("C14", "state-machine", "%s", n)
@@ -303,6 +306,23 @@ func init() {
 			}
 			e.addAll(q, specs)
 		}
+		purged := false
+		if e.qkinds[q] == qPrio && r.Intn(3) == 0 {
+			// a Purge racing a submission, then more submissions of the same priority: whatever the
+			// purge left in the queue keeps its place in front of what is accepted afterwards
+			purged = true
+			e.p("purgerace", 1)
+			var jn joiner
+			jn.goClient("purger", func() {
+				e.params["purgeT"] = now()
+				e.purge(q)
+			})
+			jn.goClient("adder", func() { e.add(q, 1, oOK, false, "") })
+			jn.wait()
+			for i := 2 + r.Intn(3); i > 0; i-- {
+				e.add(q, 1, oOK, false, "")
+			}
+		}
 		if r.Intn(2) == 0 {
 			// Pause / Resume while the queue is being worked off: a job the dispatcher has in its hands
 			// when the Pause lands keeps its place
@@ -323,6 +343,13 @@ func init() {
 			jn.wait()
 		}
 		e.drain()
+		if purged {
+			for _, s := range e.subs {
+				if len(s.tEnter) == 0 {
+					s.purgedAt = e.params["purgeT"]
+				}
+			}
+		}
 	})
 
 	// persist: persistent queues (plain / priority) with adapter faults
@@ -442,9 +469,18 @@ func init() {
 		e.adapters = append(e.adapters, ad)
 		nw := e.p("consumers", 1+r.Intn(3))
 		var ws []IWorkerBinder[int]
+		consumerGen, cgen := r.Intn(3) == 0, 0
+		if consumerGen {
+			e.p("consumerGen", 1)
+		}
 		bindAll := func() {
 			for i := 0; i < nw; i++ {
-				w := NewWorker(func(j Job[int]) { e.wfBody(j) }, WithConcurrency(1+r.Intn(3)))
+				cfg := []any{WithConcurrency(1 + r.Intn(3))}
+				if consumerGen {
+					// a consumer's own id generator has no say over the ids of stored entries
+					cfg = append(cfg, WithJobIdGenerator(func() string { cgen++; return "cg" + strconv.Itoa(cgen) }))
+				}
+				w := NewWorker(func(j Job[int]) { e.wfBody(j) }, cfg...)
 				ws = append(ws, w)
 				if prio {
 					vt.Mark("ad:binding", ad, "") // the next Manager.Register by this thread is this adapter's
@@ -637,6 +673,19 @@ func init() {
 				}
 			}
 		}
+		// a backend that refuses a few dequeues in a row although it holds items: under RoundRobin the
+		// refused queue loses that turn and the other non-empty queues are served meanwhile
+		var streakAd *recAdapter
+		if !faults && e.strat == RoundRobin && r.Intn(3) == 0 {
+			for _, a := range e.adapters {
+				if len(a.pending) > 0 {
+					streakAd = a
+					a.failStreak = e.p("failStreak", 3+r.Intn(4))
+					faults = true // the selection sequence is not compared
+					break
+				}
+			}
+		}
 		e.lifecycle("Resume", 0)
 		if r.Intn(2) == 0 {
 			// pauses while draining: a pause must not cost a queue its turn
@@ -668,6 +717,59 @@ func init() {
 		sort.Slice(starts, func(i, j int) bool { return starts[i].t < starts[j].t })
 		for _, x := range starts {
 			got = append(got, x.q)
+		}
+		if streakAd != nil {
+			// two refusals in a row on the same adapter with no dequeue anywhere in between, while
+			// another queue still had jobs (it is served later): that queue was passed over
+			var refusals, successes []int
+			for _, op := range streakAd.ops {
+				if op.op == "deq!" {
+					refusals = append(refusals, op.t)
+				}
+			}
+			for _, a := range e.adapters {
+				for _, op := range a.ops {
+					if op.op == "deq" {
+						successes = append(successes, op.t)
+					}
+				}
+			}
+			otherLater := func(t int) bool { // a dequeue from another queue after t
+				for _, a := range e.adapters {
+					if a == streakAd {
+						continue
+					}
+					for _, op := range a.ops {
+						if op.op == "deq" && op.t > t {
+							return true
+						}
+					}
+				}
+				for i, ev := range vt.S.Log {
+					if ev.Kind == "q:deq" && i > t {
+						return true
+					}
+				}
+				return false
+			}
+			for i, ev := range vt.S.Log {
+				if ev.Kind == "q:deq" {
+					successes = append(successes, i)
+				}
+			}
+			sort.Ints(successes)
+			for k := 1; k < len(refusals); k++ {
+				between := false
+				for _, sc := range successes {
+					if sc > refusals[k-1] && sc < refusals[k] {
+						between = true
+					}
+				}
+				if !between && otherLater(refusals[k]) {
+					e.notes = append(e.notes, fmt.Sprintf("SELECT: round robin: adapter %d refused a dequeue at t=%d and was asked again at t=%d with nothing served in between, while another queue still had jobs waiting", streakAd.idx, refusals[k-1], refusals[k]))
+					break
+				}
+			}
 		}
 		if !faults && fmt.Sprint(got) != fmt.Sprint(want) && !vt.S.Hang {
 			e.notes = append(e.notes, fmt.Sprintf("SELECT: strategy %d, populations %v: queues served in order %v, the strategy prescribes %v", e.strat, lens, got, want))
